@@ -100,6 +100,39 @@ def make(sid, src_kind, specs, steps, selection=None, expect_sel=None):
               timeout=400, tags={"part": "convert"}, text="%s %s -> %s files=%s" % (src_kind, [s.text() for s in specs], steps, selection))
 
 
+def make_from_foreign_disk(sid, specs, chains, slots, deleted, steps):
+    """source: a well-formed Disk BASIC image with deleted directory entries ahead of live files (independent writer)"""
+    def body(ctx):
+        install_m7()
+        _fl, descs = F.build(ctx, specs, allsym_limit=6, full_addr_index=0)
+        src = OD.write_image(descs, chains, slots=slots, deleted=deleted)
+        info = {"files": [s.text() for s in specs], "slots": slots, "deleted": deleted, "steps": steps}
+        with MemFS({"img0": src}) as fs:
+            cur, fault = "img0", None
+            for i, k in enumerate(steps):
+                nxt = "img%d" % (i + 1)
+                r = cli.run_file_util(host_filename=cur, **{"to_" + k: nxt})
+                if r.exc or r.exit not in (None, 0) or nxt not in fs.files:
+                    fault = "step %d failed: %s exit=%s out=%s" % (i, r.exc, r.exit, r.out[-120:])
+                    break
+                cur = nxt
+            final = fs.files.get(cur)
+        if fault is None:
+            try:
+                lst = listing_cas(final) if steps[-1] == "cas" else listing_dsk(final)
+                info["listed"] = [(l["name"], l["ftype"], len(l["data"])) for l in lst]
+                if not same(lst, descs, addrs=False):
+                    fault = "final listing differs from the source files"
+            except (OC.TapeError, OD.FsError) as e:
+                fault = "final image malformed: %s" % e
+        info["fault"] = fault
+        if fault is None:
+            return True, info
+        return ctx.known(PID, {"part": "foreign"}, {"fault": fault}), info
+    return Ob("C16:foreign:%s:%s" % (sid, ">".join(steps)), body, timeout=400, tags={"part": "foreign"},
+              text="foreign disk %s slots=%s deleted=%s -> %s" % ([s.text() for s in specs], slots, deleted, steps))
+
+
 def make_tobin(sid, src_kind, specs, expect_refuse):
     def body(ctx):
         install_m7()
@@ -145,6 +178,10 @@ def obligations(tier, seed):
         obs.append(make("sel-exact", src, two, [other], ["Hello"], [0]))
         obs.append(make("sel-both", src, three, [other], ["two", "ONE"], [0, 1]))
         obs.append(make("sel-none", src, two, [other], ["NOSUCH"], []))
+        sub = [S("PROG", 4, "ml"), S("PROG2", 6, "ml"), S("GAME", 9, "ml"), S("LOADER", 3, "ml"), S("LOAD", 5, "ml")]
+        obs.append(make("substr1", src, sub, [other], ["prog2", "Game"], [1, 2]))
+        obs.append(make("substr2", src, sub, [other], ["LOADER"], [3]))
+        obs.append(make("substr3", src, sub, [other], ["LOAD", "PROG"], [0, 4]))
         dup = [S("GAME", 4, "ml"), S("DATA", 6, "ml"), S("GAME", 9, "ml")]
         obs.append(make("dup-all", src, dup, [other]))
         obs.append(make("dup-sel1", src, dup, [other], ["game"], [0, 2]))
@@ -152,6 +189,10 @@ def obligations(tier, seed):
         obs.append(make_tobin("one", src, one, False))
         obs.append(make_tobin("big", src, [S("BIG", 600, "ml")], False))
         obs.append(make_tobin("two", src, two, True))
+    holes = [S("FIRST", 30, "ml"), S("THIRD", 40, "ml"), S("FOURTH", 10, "ml")]
+    obs.append(make_from_foreign_disk("holes", holes, [[5], [9], [40]], [0, 2, 7], [1, 3], ["cas"]))
+    obs.append(make_from_foreign_disk("holes", holes, [[5], [9], [40]], [0, 2, 7], [1, 3], ["cas", "dsk"]))
+    obs.append(make_from_foreign_disk("hole-first", holes[:2], [[12], [13]], [3, 4], [0], ["dsk"]))
     return obs
 
 
